@@ -71,10 +71,19 @@ def producers(env):
         P.append(dict(text='FRETF(%d)' % i, code=c, kind='custom-returns-fresh'))
         P.append(dict(text='fv%s' % 'abcdefgh'[i], code=c, kind='host-variable-fresh'))
         P.append(dict(text='$F$%d' % (i + 1), code=c, kind='host-cell-fresh'))
+    for i, c in enumerate(CODES8):
+        # ... a name answered by the callVariable LISTENER with a host-made error, and a host-made error sitting inside a host
+        # list that a built-in hands on unchanged (INDEX picks it, CHOOSE / IF / IFERROR return it)
+        P.append(dict(text='lv%s' % 'abcdefgh'[i], code=c, kind='listener-variable-fresh'))
+        P.append(dict(text='INDEX(xerrs,%d)' % (i + 1), code=c, kind='picked-from-host-list'))
+    P.append(dict(text='CHOOSE(2,1,INDEX(xerrs,7))', code='#N/A', kind='picked-from-host-list'))
+    P.append(dict(text='IF(TRUE,INDEX(xerrs,7),1)', code='#N/A', kind='picked-from-host-list'))
+    P.append(dict(text='IFERROR(1/0,INDEX(xerrs,7))', code='#N/A', kind='picked-from-host-list'))
+    P.append(dict(text='INDEX(xgrid,2,1)', code='#N/A', kind='picked-from-host-list'))
     return P
 
 
-NPRODUCERS = 78
+NPRODUCERS = 98
 
 
 LITERALS = ['#NULL!', '#DIV/0!', '#VALUE!', '#REF!', '#NAME?', '#NUM!', '#N/A', '#ERROR!', '#GETTING_DATA']
@@ -103,6 +112,10 @@ def bind(env):
     for i in range(8):
         vars['fv%s' % 'abcdefgh'[i]] = env.err.XLError(CODES8[i])
         cells['$F$%d' % (i + 1)] = env.err.XLError(CODES8[i])
+    vars['xerrs'] = [env.err.XLError(c) for c in CODES8]
+    vars['xgrid'] = [[1, 2], [env.err.XLError('#N/A'), 4]]
+    for i in range(8):
+        cells['var:lv%s' % 'abcdefgh'[i]] = env.err.XLError(CODES8[i])
     return vars, {'FRAISE': fraise, 'FRET': fret, 'FRAISEF': fraisef, 'FRETF': fretf}, cells
 
 
